@@ -311,14 +311,26 @@ func elemRunCase(which string) func(c *Ctx, raw []byte) string {
 // elemGraphs: graphs whose references leaving the root document are spelled as absolute URLs, so that
 // they mean the same whether the root is at its real location or at the pseudo location of the
 // *WithRoot entry points.
-func elemGraphs(c *Ctx, thorough bool, emit func(g *gspec)) {
-	placements := [][]int{{0, 0}, {0, 1}, {0, 2}, {1, 1}, {2, 0}, {1, 3}, {3, 5}}
-	for nn := 1; nn <= 2; nn++ {
-		for _, mask := range topologies(nn, false) {
-			for _, pp := range placements {
-				forms := []int{formProperties}
-				if thorough {
-					forms = []int{formProperties, formItems, formAllOf, formAdditionalProperties, formPatternProperties}
+// level 0: one keyword position; 1: five; 2: twelve positions, and three-node graphs
+func elemGraphs(c *Ctx, level int, emit func(g *gspec)) {
+	thorough := level >= 2
+	placements := [][]int{{0, 0, 0}, {0, 1, 2}, {0, 2, 1}, {1, 1, 0}, {2, 0, 3}, {1, 3, 0}, {3, 5, 1}, {0, 9, 8}, {9, 0, 0}, {8, 8, 1}}
+	maxN := 2
+	if thorough {
+		maxN = 3
+	}
+	for nn := 1; nn <= maxN; nn++ {
+		for _, mask := range topologies(nn, nn >= 3) {
+			for pi, pp := range placements {
+				if nn >= 3 && pi%3 != 0 {
+					continue
+				}
+				forms := []int{formProperties, formItems, formAllOf, formAdditionalProperties, formPatternProperties}
+				if level == 0 {
+					forms = []int{formProperties}
+				}
+				if thorough && nn < 3 {
+					forms = []int{0, 1, 2, 3, 4, 5, 6, 7, 8, 9, 10, 11}
 				}
 				for _, form := range forms {
 					g := baseSpec(nn, mask)
@@ -436,7 +448,7 @@ func c10Run(c *Ctx) {
 			c.Sample(map[string]interface{}{"features": cs.Feat, "calls": cs.Calls, "cache": cs.CacheKind, "alt_root": cs.AltRoot})
 		}
 	}
-	elemGraphs(c, !c.Quick(), func(g *gspec) {
+	elemGraphs(c, map[bool]int{true: 1, false: 2}[c.Quick()], func(g *gspec) {
 		b := g.build()
 		schemas, params, resps := elementsOf(b)
 		one := func(cl call, cacheKind string, preload []string) {
@@ -501,7 +513,7 @@ func c18Run(c *Ctx) {
 			c.Sample(map[string]interface{}{"features": cs.Feat, "calls": cs.Calls, "cache": cs.CacheKind, "preload": cs.Preload})
 		}
 	}
-	elemGraphs(c, !c.Quick(), func(g *gspec) {
+	elemGraphs(c, map[bool]int{true: 0, false: 2}[c.Quick()], func(g *gspec) {
 		b := g.build()
 		schemas, params, resps := elementsOf(b)
 		var ext []string
